@@ -9,7 +9,7 @@ import (
 )
 
 // leaf returns a symbolic JSON scalar and its text.
-func leaf(label string) string {
+func vxLeaf(label string) string {
 	switch vxrt.Choice(label+"-kind", 3) {
 	case 0:
 		d := vxrt.Text(label+"-digits", vxrt.Len(label+"-digits-len", 1, 2))
@@ -36,16 +36,20 @@ func H_C15_json() {
 	path := []string{"a", "o.k", "z.0"}[which]
 	// the targeted value is symbolic; one neighbour too in the thorough tier
 	vals := []string{"1", `"n"`, "null"}
-	vals[which] = leaf("target")
+	vals[which] = vxLeaf("target")
 	if vxrt.Param("neighbour", 0) == 1 {
-		vals[(which+1)%3] = leaf("neighbour")
+		vals[(which+1)%3] = vxLeaf("neighbour")
 	}
 	va, vk, v0, v1 := vals[0], vals[1], vals[2], "2"
 	doc := `{"a":` + va + `,"o":{"k":` + vk + `},"z":[` + v0 + `,` + v1 + `]}`
 	// placeholder
 	var ph any
 	var phText string
-	switch vxrt.Choice("placeholder", 4) {
+	switch vxrt.Choice("placeholder", 6) {
+	case 4: // a string that happens to look like JSON is still a string
+		ph, phText = "[]", `"[]"`
+	case 5:
+		ph, phText = `{"k":1}`, `"{\"k\":1}"`
 	case 0:
 		ph, phText = "<Any value>", `"<Any value>"`
 	case 1:
@@ -69,14 +73,14 @@ func H_C15_json() {
 	parts[which] = phText
 	want := `{"a":` + parts[0] + `,"o":{"k":` + parts[1] + `},"z":[` + parts[2] + `,` + v1 + `]}`
 	vxrt.Assert(gjson.ValidBytes(out), "C15:result-is-valid-json")
-	vxrt.Assert(vxrt.Eq(compactRef(string(out)), want), "C15:only-the-target-replaced")
+	vxrt.Assert(vxrt.Eq(vxCompactRef(string(out)), want), "C15:only-the-target-replaced")
 	vxrt.Assert(vxrt.Eq(string(caller), doc), "C15:caller-bytes-untouched")
 }
 
 // H_C15_multi: several paths in one matcher, repeated and nested paths, and
 // the Type matcher: paths take effect left to right on the running document.
 func H_C15_multi() {
-	v := leaf("value")
+	v := vxLeaf("value")
 	doc := `{"a":` + v + `,"o":{"k":1,"c":2}}`
 	caller := []byte(doc)
 	typeName := func(val string) string {
@@ -116,7 +120,7 @@ func H_C15_multi() {
 	}
 	vxrt.Assert(len(errs) == 0, "C15:existing-path-no-error")
 	vxrt.Assert(gjson.ValidBytes(out), "C15:result-is-valid-json")
-	vxrt.Assert(vxrt.Eq(compactRef(string(out)), want), "C15:paths-take-effect-left-to-right")
+	vxrt.Assert(vxrt.Eq(vxCompactRef(string(out)), want), "C15:paths-take-effect-left-to-right")
 	vxrt.Assert(vxrt.Eq(string(caller), doc), "C15:caller-bytes-untouched")
 }
 
@@ -162,8 +166,8 @@ func H_C15_reuse() {
 		}
 	case 0: // the same matcher value applied to an earlier document that lacks some of its paths
 		m := build("P", "a", "b", "c")
-		first := []string{`{"b":1,"c":1}`, `{"a":1,"c":1}`, `{"c":1}`, `{"x":1}`, `{"a":1,"b":2,"c":3}`}[vxrt.Choice("earlier-document", 5)]
-		m.JSON([]byte(first))
+		vxFirst := []string{`{"b":1,"c":1}`, `{"a":1,"c":1}`, `{"c":1}`, `{"x":1}`, `{"a":1,"b":2,"c":3}`}[vxrt.Choice("earlier-document", 5)]
+		m.JSON([]byte(vxFirst))
 		out, errs := m.JSON([]byte(`{"a":1,"b":2,"c":3}`))
 		vxrt.Assert(len(errs) == 0, "C15:existing-path-no-error")
 		for _, p := range []string{"a", "b", "c"} {
